@@ -70,7 +70,8 @@ def corpus():
     raw = {1: (["r", "o"], ["r", "di1"]), 2: (["o"], ["o", "di2"]), 3: ([], ["di3"]), 4: (["r", "r"], ["r", "r", "di4"])}
     ty = {1: (["r:clist", "o:nlist"], ["r:i8", "di1"]), 2: (["o:arb"], ["o:str", "di2"]), 3: ([], ["di3"]), 4: (["r:i64", "r:u64"], ["r:f32", "r:bool", "di4"])}
     msgs = [b"*ARB? #10", b"*ARB #200,1", b"CMD #10", b"SUM? 1,*RST", b"SUM 1.0, *IDN", b"*IDN?;;SYST:VERS?", b";*IDN?", b"SYST:VERS; ;VERS?\n",
-            b"CMD (@1!!2)", b"CMD (@1!2!3:4!5!6),(1:2,3)", b"CMD (@", b"CMD (@1:)", b"CMD (@!)", b"CMD (@1!),(,)", b"CMD (@'a", b"CMD (1:2:3),(--1)",
+            b"CMD (@1!!2)", b"CMD (@1!2!3:4!5!6),(1:2,3)", b"CMD (@", b"CMD (@1:)", b"CMD (@!)", b"CMD (@1!),(,)", b"CMD (@'a", b"CMD (1:2:3),(--1)", b"CMD (@1!2-3)", b"CMD (@4!5,1!2+3)", b"CMD (@1!2!3-4)", b"CMD (@1!2:3!4-5)", b"CMD (@1-2)", b"CMD (@1+2!3),(1-2)", b"SUM 1,*RST", b"SUM? 1.5,*X2", b"CMD 1,*IDN?",
+            b"CMD (@18446744073709551617)", b"CMD (@9223372036854775808!1)", b"CMD (@1!170141183460469231731687303715884105728)",
             b"CMD 9223372036854775807.0", b"SUM 18446744073709551615.0,1e400", b"SUM? -1e-400,0.5", b"CMD? 1e39", b"CMD? -129", b"CMD? 0.0",
             b"CMD #", b"CMD #H", b"CMD #0", b"CMD '", b"CMD \"\x80\"", b"\x00\xff", b"*", b":", b"?", b"CMD?1", b"CMD 1e", b"CMD .", b"CMD +", b"CMD -.e1",
             b"CMD #9999999999", b"CMD #19", b"CMD 1" + b"0" * 400, b"CMD ." + b"9" * 400 + b"e-400", b"SYST" + b":SYST" * 200, b"CMD " + b"1," * 300 + b"1"]
